@@ -23,9 +23,15 @@ Lemma codec_consts :
 Proof. repeat split; reflexivity. Qed.
 
 (* ---------- cursor ---------- *)
+Lemma short_spec : forall n l, short n l = (length l <? n)%nat.
+Proof.
+  induction n as [|n IH]; intros l; [destruct l; reflexivity|].
+  destruct l as [|x r]; cbn [short length]; [reflexivity|]. rewrite IH. reflexivity.
+Qed.
+
 Lemma rd_app : forall n a b, length a = n -> rd n (a ++ b) = Ok (le_val a, b).
 Proof.
-  intros n a b H. unfold rd. rewrite app_length.
+  intros n a b H. unfold rd. rewrite short_spec, app_length.
   destruct (Nat.ltb_spec (length a + length b) n); [lia|].
   rewrite firstn_app_exact, skipn_app_exact by exact H. reflexivity.
 Qed.
@@ -38,12 +44,12 @@ Proof. intros n x b H. rewrite rd_app by apply le_bytes_length. now rewrite le_v
 
 Lemma rd_ok_length : forall n bs v r, rd n bs = Ok (v, r) -> length bs = (n + length r)%nat /\ r = skipn n bs.
 Proof.
-  intros n bs v r H. unfold rd in H. destruct (Nat.ltb_spec (length bs) n); [discriminate|].
+  intros n bs v r H. unfold rd in H. rewrite short_spec in H. destruct (Nat.ltb_spec (length bs) n); [discriminate|].
   inversion H. subst. rewrite skipn_length. split; [lia|reflexivity].
 Qed.
 
 Lemma rd_not_stuck : forall n bs, rd n bs <> Stuck.
-Proof. intros. unfold rd. destruct (length bs <? n)%nat; discriminate. Qed.
+Proof. intros. unfold rd. destruct (short n bs); discriminate. Qed.
 
 (* ---------- entries ---------- *)
 Lemma ascending_b_sorted : forall l, ascending_b l = true <-> StronglySorted N.lt l.
@@ -320,15 +326,18 @@ Lemma pack_unpack_deltas : forall f1 w ds f2 rest,
 Proof.
   induction f1 as [|f1 IH]; intros w ds f2 rest Hw Hds Hf1 Hf2; [lia|].
   destruct f2 as [|f2]; [lia|].
-  cbn [pack_deltas unpack_deltas]. rewrite block_width.
+  cbn [pack_deltas unpack_deltas]. rewrite block_width. change (N.to_nat 8) with 8%nat. rewrite !short_spec.
   assert (Hds64 : Forall (fun x => x < 2 ^ 64) ds) by (apply (Forall_lt_weaken w); [lia|exact Hds]).
   destruct (Nat.lt_ge_cases (length ds) 8) as [Hshort|Hlong].
   - (* fewer than 8 values: the tail *)
+    destruct (Nat.ltb_spec (length ds) 8); [|lia]. cbn [negb].
     destruct (N.leb_spec 8 (N.of_nat (length ds))); [lia|].
     assert (Hdiv : (length ds / 8 = 0)%nat) by (apply Nat.div_small; exact Hshort).
     assert (Hmod : (length ds mod 8 = length ds)%nat) by (apply Nat.mod_small; exact Hshort).
-    destruct (N.ltb_spec 0 (N.of_nat (length ds))) as [Hpos|Hzero].
-    + rewrite pack_tail_correct by (assumption || lia).
+    destruct ds as [|d0 dr] eqn:Eds.
+    2:{ rewrite <- Eds in *. assert (Hpos : 0 < N.of_nat (length ds)) by (rewrite Eds; cbn [length]; lia).
+      destruct (N.ltb_spec 0 (N.of_nat (length ds))); [|lia].
+      rewrite pack_tail_correct by (assumption || lia).
       exists (pack_stream w ds). split; [reflexivity|]. split.
       { rewrite pack_stream_length. unfold packed_len. rewrite Hdiv, Hmod. lia. }
       split; [apply pack_stream_bytes|].
@@ -336,16 +345,15 @@ Proof.
       { rewrite pack_stream_length. rewrite <- Nat2N.inj_mul.
         change 7 with (N.of_nat 7). rewrite <- Nat2N.inj_add. change 8 with (N.of_nat 8).
         rewrite <- Nat2N.inj_div, Nat2N.id. reflexivity. }
-      rewrite Hneed. rewrite app_length.
+      rewrite Hneed. rewrite short_spec, app_length.
       destruct (Nat.ltb_spec (length (pack_stream w ds) + length rest) (length (pack_stream w ds))); [lia|].
       rewrite firstn_app_exact by reflexivity. rewrite Nat2N.id.
       rewrite unpack_tail_correct by (assumption || lia || apply pack_stream_bytes).
-      rewrite pack_unpack_generic by lia. rewrite mod_small_all by exact Hds. reflexivity.
-    + assert (E : ds = []) by (destruct ds; [reflexivity|cbn [length] in Hzero; lia]). subst ds.
-      exists []. repeat split; try reflexivity. constructor.
+      rewrite pack_unpack_generic by lia. rewrite mod_small_all by exact Hds. reflexivity. }
+    exists []. repeat split; try reflexivity. constructor.
   - (* a block of 8 values *)
+    destruct (Nat.ltb_spec (length ds) 8); [lia|]. cbn [negb].
     destruct (N.leb_spec 8 (N.of_nat (length ds))); [|lia].
-    change (N.to_nat 8) with 8%nat.
     set (a := firstn 8 ds). set (b := skipn 8 ds).
     assert (Ha : length a = 8%nat) by (unfold a; rewrite firstn_length; lia).
     assert (Hb : length b = (length ds - 8)%nat) by (unfold b; apply skipn_length).
@@ -365,7 +373,7 @@ Proof.
       rewrite Nat.div_add by lia. cbn. lia. }
     split; [rewrite app_length, La, Lpb; unfold packed_len; rewrite Hdiv, Hmod; lia|].
     split; [apply Forall_app; split; [apply pack_stream_bytes|exact Bpb]|].
-    rewrite Nat2N.id. rewrite <- app_assoc, app_length, La.
+    rewrite Nat2N.id. rewrite <- app_assoc, short_spec, app_length, La.
     destruct (Nat.ltb_spec (w + length (pb ++ rest)) w); [lia|].
     rewrite firstn_app_exact, skipn_app_exact by exact La.
     rewrite unpack_block_correct by (assumption || lia || apply pack_stream_bytes).
@@ -521,7 +529,7 @@ Definition bytes_lt (bs : list N) : Prop := Forall (fun x => x < 2 ^ 8) bs.
 
 Lemma rd_bytes : forall n bs v r, bytes_lt bs -> rd n bs = Ok (v, r) -> bytes_lt r /\ v < 256 ^ N.of_nat n.
 Proof.
-  intros n bs v r Hb H. unfold rd in H. destruct (Nat.ltb_spec (length bs) n); [discriminate|].
+  intros n bs v r Hb H. unfold rd in H. rewrite short_spec in H. destruct (Nat.ltb_spec (length bs) n); [discriminate|].
   inversion H; subst. split; [apply Forall_skipn; exact Hb|].
   assert (Hl : length (firstn n bs) = n) by (rewrite firstn_length; lia).
   rewrite <- Hl at 2. apply le_val_bound. unfold bytes_ok. apply forallb_forall. intros x Hx.
@@ -594,7 +602,7 @@ Lemma unpack_deltas_ns : forall fuel w remaining bs, (1 <= w <= 63)%nat -> bytes
   unpack_deltas fuel (N.of_nat w) remaining bs <> Stuck.
 Proof.
   induction fuel as [|fuel IH]; intros w remaining bs Hw Hb; cbn [unpack_deltas]; [discriminate|].
-  rewrite block_width, Nat2N.id.
+  rewrite block_width, Nat2N.id, !short_spec.
   destruct (N.leb_spec 8 remaining) as [Hblk|Hshort].
   - destruct (Nat.ltb_spec (length bs) w) as [|Hlen]; [discriminate|].
     rewrite unpack_block_correct; [|exact Hw|rewrite firstn_length; lia|apply Forall_firstn; exact Hb].
@@ -609,7 +617,7 @@ Lemma unpack_deltas_len : forall fuel w remaining bs ds, (1 <= w <= 63)%nat -> b
   unpack_deltas fuel (N.of_nat w) remaining bs = Ok ds -> length ds = N.to_nat remaining.
 Proof.
   induction fuel as [|fuel IH]; intros w remaining bs ds Hw Hb Hf H; [lia|]. cbn [unpack_deltas] in H.
-  rewrite block_width, Nat2N.id in H.
+  rewrite block_width, Nat2N.id, !short_spec in H.
   destruct (N.leb_spec 8 remaining) as [Hblk|Hshort].
   - destruct (Nat.ltb_spec (length bs) w) as [|Hlen]; [discriminate|].
     rewrite unpack_block_correct in H; [|exact Hw|rewrite firstn_length; lia|apply Forall_firstn; exact Hb].
